@@ -33,6 +33,7 @@ def check(repo, run, tier):
     g(check_flag_tags, repo, run, 'C03.R5', tags={'!force', '!weak'})
     g(unitrules.list_prefilter_guard, repo, run, 'C03.R5')
     g(unitrules.adoption_order_table, repo, run, 'C03.R4')
+    g(unitrules.replace_self_propagates_result, repo, run, 'C03.R3')
     g.done()
 
 
@@ -44,6 +45,7 @@ def _early_propagation(r):
 
 def mutants(repo):
     return [
+        Mutant('consumed-node-repropagated', lambda r: in_func(r, 'ConfigNode._replace_self', "        ret._propagate_implicit_values()", "        other._propagate_implicit_values()"), ['C03.R3']),
         Mutant('priority-pushed-down-before-it-is-stored', lambda r: _early_propagation(r), ['C03.R4']),
         Mutant('gt-to-ge', lambda r: in_func(r, 'ConfigNode.ayns.has_priority_over', "return self.ayns.priority > other.ayns.priority", "return self.ayns.priority >= other.ayns.priority"), ['C03.R1']) if False else
         Mutant('equal-ignores-if_equal', lambda r: in_func(r, 'ConfigNode.ayns.has_priority_over', "return if_equal", "return False"), ['C03.R1']),
